@@ -8,3 +8,194 @@ void _ZNSt9exceptionD2Ev(struct S_class_std_exception *e) { (void)e; }
 static uint32_t ir2c_errno;
 uint32_t *__errno_location(void) { return &ir2c_errno; }
 #endif
+/* std::__throw_* helpers: throw a std exception object (what() text not modelled) */
+static void ir2c_throw_std(void *ti) {
+  uint8_t *e = __cxa_allocate_exception(16);
+  __cxa_throw(e, (uint8_t *)ti, 0);
+}
+#ifdef IR2C_NEED__ZSt17__throw_bad_allocv
+struct ir2c_typeinfo ir2c_ti_bad_alloc = { (void *)&ir2c_class_vt, "St9bad_alloc", 0 };
+void _ZSt17__throw_bad_allocv(void) { ir2c_throw_std(&ir2c_ti_bad_alloc); }
+#endif
+#ifdef IR2C_NEED__ZSt28__throw_bad_array_new_lengthv
+struct ir2c_typeinfo ir2c_ti_bad_array_new_length = { (void *)&ir2c_class_vt, "St20bad_array_new_length", 0 };
+void _ZSt28__throw_bad_array_new_lengthv(void) { ir2c_throw_std(&ir2c_ti_bad_array_new_length); }
+#endif
+#ifdef IR2C_NEED__ZSt20__throw_length_errorPKc
+struct ir2c_typeinfo ir2c_ti_length_error = { (void *)&ir2c_class_vt, "St12length_error", 0 };
+void _ZSt20__throw_length_errorPKc(uint8_t *msg) { (void)msg; ir2c_throw_std(&ir2c_ti_length_error); }
+#endif
+#ifdef IR2C_NEED__ZSt24__throw_out_of_range_fmtPKcz
+struct ir2c_typeinfo ir2c_ti_out_of_range = { (void *)&ir2c_class_vt, "St12out_of_range", 0 };
+void _ZSt24__throw_out_of_range_fmtPKcz(uint8_t *msg, ...) { (void)msg; ir2c_throw_std(&ir2c_ti_out_of_range); }
+#endif
+#ifdef IR2C_NEED__ZSt19__throw_logic_errorPKc
+struct ir2c_typeinfo ir2c_ti_logic_error = { (void *)&ir2c_class_vt, "St11logic_error", 0 };
+void _ZSt19__throw_logic_errorPKc(uint8_t *msg) { (void)msg; ir2c_throw_std(&ir2c_ti_logic_error); }
+#endif
+/* std exception classes: constructors/destructors are no-ops (the message text is not modelled; what() is outside the model) */
+#ifdef IR2C_NEED__ZNSt13runtime_errorC1EPKc
+void _ZNSt13runtime_errorC1EPKc(struct S_class_std_runtime_error *e, uint8_t *msg) { (void)e; (void)msg; }
+#endif
+#ifdef IR2C_NEED__ZNSt13runtime_errorC1ERKNSt7__cxx1112basic_stringIcSt11char_traitsIcESaIcEEE
+void _ZNSt13runtime_errorC1ERKNSt7__cxx1112basic_stringIcSt11char_traitsIcESaIcEEE(struct S_class_std_runtime_error *e, struct S_class_std_cxx11_basic_string *msg) { (void)e; (void)msg; }
+#endif
+#ifdef IR2C_NEED__ZNSt13runtime_errorC2EPKc
+void _ZNSt13runtime_errorC2EPKc(struct S_class_std_runtime_error *e, uint8_t *msg) { (void)e; (void)msg; }
+#endif
+#ifdef IR2C_NEED__ZNSt13runtime_errorC2ERKNSt7__cxx1112basic_stringIcSt11char_traitsIcESaIcEEE
+void _ZNSt13runtime_errorC2ERKNSt7__cxx1112basic_stringIcSt11char_traitsIcESaIcEEE(struct S_class_std_runtime_error *e, struct S_class_std_cxx11_basic_string *msg) { (void)e; (void)msg; }
+#endif
+#ifdef IR2C_NEED__ZNSt13runtime_errorD1Ev
+void _ZNSt13runtime_errorD1Ev(struct S_class_std_runtime_error *e) { (void)e; }
+#endif
+#ifdef IR2C_NEED__ZNSt13runtime_errorD2Ev
+void _ZNSt13runtime_errorD2Ev(struct S_class_std_runtime_error *e) { (void)e; }
+#endif
+#ifdef IR2C_NEED__ZNKSt13runtime_error4whatEv
+uint8_t *_ZNKSt13runtime_error4whatEv(struct S_class_std_runtime_error *e) { (void)e; return (uint8_t *)"std::runtime_error"; }
+#endif
+#ifdef IR2C_NEED__ZNSt11logic_errorC1EPKc
+void _ZNSt11logic_errorC1EPKc(struct S_class_std_logic_error *e, uint8_t *msg) { (void)e; (void)msg; }
+#endif
+#ifdef IR2C_NEED__ZNSt11logic_errorC1ERKNSt7__cxx1112basic_stringIcSt11char_traitsIcESaIcEEE
+void _ZNSt11logic_errorC1ERKNSt7__cxx1112basic_stringIcSt11char_traitsIcESaIcEEE(struct S_class_std_logic_error *e, struct S_class_std_cxx11_basic_string *msg) { (void)e; (void)msg; }
+#endif
+#ifdef IR2C_NEED__ZNSt11logic_errorC2EPKc
+void _ZNSt11logic_errorC2EPKc(struct S_class_std_logic_error *e, uint8_t *msg) { (void)e; (void)msg; }
+#endif
+#ifdef IR2C_NEED__ZNSt11logic_errorC2ERKNSt7__cxx1112basic_stringIcSt11char_traitsIcESaIcEEE
+void _ZNSt11logic_errorC2ERKNSt7__cxx1112basic_stringIcSt11char_traitsIcESaIcEEE(struct S_class_std_logic_error *e, struct S_class_std_cxx11_basic_string *msg) { (void)e; (void)msg; }
+#endif
+#ifdef IR2C_NEED__ZNSt11logic_errorD1Ev
+void _ZNSt11logic_errorD1Ev(struct S_class_std_logic_error *e) { (void)e; }
+#endif
+#ifdef IR2C_NEED__ZNSt11logic_errorD2Ev
+void _ZNSt11logic_errorD2Ev(struct S_class_std_logic_error *e) { (void)e; }
+#endif
+#ifdef IR2C_NEED__ZNSt14overflow_errorC1EPKc
+void _ZNSt14overflow_errorC1EPKc(struct S_class_std_overflow_error *e, uint8_t *msg) { (void)e; (void)msg; }
+#endif
+#ifdef IR2C_NEED__ZNSt14overflow_errorC1ERKNSt7__cxx1112basic_stringIcSt11char_traitsIcESaIcEEE
+void _ZNSt14overflow_errorC1ERKNSt7__cxx1112basic_stringIcSt11char_traitsIcESaIcEEE(struct S_class_std_overflow_error *e, struct S_class_std_cxx11_basic_string *msg) { (void)e; (void)msg; }
+#endif
+#ifdef IR2C_NEED__ZNSt14overflow_errorC2EPKc
+void _ZNSt14overflow_errorC2EPKc(struct S_class_std_overflow_error *e, uint8_t *msg) { (void)e; (void)msg; }
+#endif
+#ifdef IR2C_NEED__ZNSt14overflow_errorC2ERKNSt7__cxx1112basic_stringIcSt11char_traitsIcESaIcEEE
+void _ZNSt14overflow_errorC2ERKNSt7__cxx1112basic_stringIcSt11char_traitsIcESaIcEEE(struct S_class_std_overflow_error *e, struct S_class_std_cxx11_basic_string *msg) { (void)e; (void)msg; }
+#endif
+#ifdef IR2C_NEED__ZNSt14overflow_errorD1Ev
+void _ZNSt14overflow_errorD1Ev(struct S_class_std_overflow_error *e) { (void)e; }
+#endif
+#ifdef IR2C_NEED__ZNSt14overflow_errorD2Ev
+void _ZNSt14overflow_errorD2Ev(struct S_class_std_overflow_error *e) { (void)e; }
+#endif
+#ifdef IR2C_NEED__ZNSt15underflow_errorC1EPKc
+void _ZNSt15underflow_errorC1EPKc(struct S_class_std_underflow_error *e, uint8_t *msg) { (void)e; (void)msg; }
+#endif
+#ifdef IR2C_NEED__ZNSt15underflow_errorC1ERKNSt7__cxx1112basic_stringIcSt11char_traitsIcESaIcEEE
+void _ZNSt15underflow_errorC1ERKNSt7__cxx1112basic_stringIcSt11char_traitsIcESaIcEEE(struct S_class_std_underflow_error *e, struct S_class_std_cxx11_basic_string *msg) { (void)e; (void)msg; }
+#endif
+#ifdef IR2C_NEED__ZNSt15underflow_errorC2EPKc
+void _ZNSt15underflow_errorC2EPKc(struct S_class_std_underflow_error *e, uint8_t *msg) { (void)e; (void)msg; }
+#endif
+#ifdef IR2C_NEED__ZNSt15underflow_errorC2ERKNSt7__cxx1112basic_stringIcSt11char_traitsIcESaIcEEE
+void _ZNSt15underflow_errorC2ERKNSt7__cxx1112basic_stringIcSt11char_traitsIcESaIcEEE(struct S_class_std_underflow_error *e, struct S_class_std_cxx11_basic_string *msg) { (void)e; (void)msg; }
+#endif
+#ifdef IR2C_NEED__ZNSt15underflow_errorD1Ev
+void _ZNSt15underflow_errorD1Ev(struct S_class_std_underflow_error *e) { (void)e; }
+#endif
+#ifdef IR2C_NEED__ZNSt15underflow_errorD2Ev
+void _ZNSt15underflow_errorD2Ev(struct S_class_std_underflow_error *e) { (void)e; }
+#endif
+#ifdef IR2C_NEED__ZNSt12out_of_rangeC1EPKc
+void _ZNSt12out_of_rangeC1EPKc(struct S_class_std_out_of_range *e, uint8_t *msg) { (void)e; (void)msg; }
+#endif
+#ifdef IR2C_NEED__ZNSt12out_of_rangeC1ERKNSt7__cxx1112basic_stringIcSt11char_traitsIcESaIcEEE
+void _ZNSt12out_of_rangeC1ERKNSt7__cxx1112basic_stringIcSt11char_traitsIcESaIcEEE(struct S_class_std_out_of_range *e, struct S_class_std_cxx11_basic_string *msg) { (void)e; (void)msg; }
+#endif
+#ifdef IR2C_NEED__ZNSt12out_of_rangeC2EPKc
+void _ZNSt12out_of_rangeC2EPKc(struct S_class_std_out_of_range *e, uint8_t *msg) { (void)e; (void)msg; }
+#endif
+#ifdef IR2C_NEED__ZNSt12out_of_rangeC2ERKNSt7__cxx1112basic_stringIcSt11char_traitsIcESaIcEEE
+void _ZNSt12out_of_rangeC2ERKNSt7__cxx1112basic_stringIcSt11char_traitsIcESaIcEEE(struct S_class_std_out_of_range *e, struct S_class_std_cxx11_basic_string *msg) { (void)e; (void)msg; }
+#endif
+#ifdef IR2C_NEED__ZNSt12out_of_rangeD1Ev
+void _ZNSt12out_of_rangeD1Ev(struct S_class_std_out_of_range *e) { (void)e; }
+#endif
+#ifdef IR2C_NEED__ZNSt12out_of_rangeD2Ev
+void _ZNSt12out_of_rangeD2Ev(struct S_class_std_out_of_range *e) { (void)e; }
+#endif
+#ifdef IR2C_NEED__ZNSt16invalid_argumentC1EPKc
+void _ZNSt16invalid_argumentC1EPKc(struct S_class_std_invalid_argument *e, uint8_t *msg) { (void)e; (void)msg; }
+#endif
+#ifdef IR2C_NEED__ZNSt16invalid_argumentC1ERKNSt7__cxx1112basic_stringIcSt11char_traitsIcESaIcEEE
+void _ZNSt16invalid_argumentC1ERKNSt7__cxx1112basic_stringIcSt11char_traitsIcESaIcEEE(struct S_class_std_invalid_argument *e, struct S_class_std_cxx11_basic_string *msg) { (void)e; (void)msg; }
+#endif
+#ifdef IR2C_NEED__ZNSt16invalid_argumentC2EPKc
+void _ZNSt16invalid_argumentC2EPKc(struct S_class_std_invalid_argument *e, uint8_t *msg) { (void)e; (void)msg; }
+#endif
+#ifdef IR2C_NEED__ZNSt16invalid_argumentC2ERKNSt7__cxx1112basic_stringIcSt11char_traitsIcESaIcEEE
+void _ZNSt16invalid_argumentC2ERKNSt7__cxx1112basic_stringIcSt11char_traitsIcESaIcEEE(struct S_class_std_invalid_argument *e, struct S_class_std_cxx11_basic_string *msg) { (void)e; (void)msg; }
+#endif
+#ifdef IR2C_NEED__ZNSt16invalid_argumentD1Ev
+void _ZNSt16invalid_argumentD1Ev(struct S_class_std_invalid_argument *e) { (void)e; }
+#endif
+#ifdef IR2C_NEED__ZNSt16invalid_argumentD2Ev
+void _ZNSt16invalid_argumentD2Ev(struct S_class_std_invalid_argument *e) { (void)e; }
+#endif
+#ifdef IR2C_NEED__ZNSt12length_errorC1EPKc
+void _ZNSt12length_errorC1EPKc(struct S_class_std_length_error *e, uint8_t *msg) { (void)e; (void)msg; }
+#endif
+#ifdef IR2C_NEED__ZNSt12length_errorC1ERKNSt7__cxx1112basic_stringIcSt11char_traitsIcESaIcEEE
+void _ZNSt12length_errorC1ERKNSt7__cxx1112basic_stringIcSt11char_traitsIcESaIcEEE(struct S_class_std_length_error *e, struct S_class_std_cxx11_basic_string *msg) { (void)e; (void)msg; }
+#endif
+#ifdef IR2C_NEED__ZNSt12length_errorC2EPKc
+void _ZNSt12length_errorC2EPKc(struct S_class_std_length_error *e, uint8_t *msg) { (void)e; (void)msg; }
+#endif
+#ifdef IR2C_NEED__ZNSt12length_errorC2ERKNSt7__cxx1112basic_stringIcSt11char_traitsIcESaIcEEE
+void _ZNSt12length_errorC2ERKNSt7__cxx1112basic_stringIcSt11char_traitsIcESaIcEEE(struct S_class_std_length_error *e, struct S_class_std_cxx11_basic_string *msg) { (void)e; (void)msg; }
+#endif
+#ifdef IR2C_NEED__ZNSt12length_errorD1Ev
+void _ZNSt12length_errorD1Ev(struct S_class_std_length_error *e) { (void)e; }
+#endif
+#ifdef IR2C_NEED__ZNSt12length_errorD2Ev
+void _ZNSt12length_errorD2Ev(struct S_class_std_length_error *e) { (void)e; }
+#endif
+#ifdef IR2C_NEED__ZNSt12domain_errorC1EPKc
+void _ZNSt12domain_errorC1EPKc(struct S_class_std_domain_error *e, uint8_t *msg) { (void)e; (void)msg; }
+#endif
+#ifdef IR2C_NEED__ZNSt12domain_errorC1ERKNSt7__cxx1112basic_stringIcSt11char_traitsIcESaIcEEE
+void _ZNSt12domain_errorC1ERKNSt7__cxx1112basic_stringIcSt11char_traitsIcESaIcEEE(struct S_class_std_domain_error *e, struct S_class_std_cxx11_basic_string *msg) { (void)e; (void)msg; }
+#endif
+#ifdef IR2C_NEED__ZNSt12domain_errorC2EPKc
+void _ZNSt12domain_errorC2EPKc(struct S_class_std_domain_error *e, uint8_t *msg) { (void)e; (void)msg; }
+#endif
+#ifdef IR2C_NEED__ZNSt12domain_errorC2ERKNSt7__cxx1112basic_stringIcSt11char_traitsIcESaIcEEE
+void _ZNSt12domain_errorC2ERKNSt7__cxx1112basic_stringIcSt11char_traitsIcESaIcEEE(struct S_class_std_domain_error *e, struct S_class_std_cxx11_basic_string *msg) { (void)e; (void)msg; }
+#endif
+#ifdef IR2C_NEED__ZNSt12domain_errorD1Ev
+void _ZNSt12domain_errorD1Ev(struct S_class_std_domain_error *e) { (void)e; }
+#endif
+#ifdef IR2C_NEED__ZNSt12domain_errorD2Ev
+void _ZNSt12domain_errorD2Ev(struct S_class_std_domain_error *e) { (void)e; }
+#endif
+#ifdef IR2C_NEED__ZNSt11range_errorC1EPKc
+void _ZNSt11range_errorC1EPKc(struct S_class_std_range_error *e, uint8_t *msg) { (void)e; (void)msg; }
+#endif
+#ifdef IR2C_NEED__ZNSt11range_errorC1ERKNSt7__cxx1112basic_stringIcSt11char_traitsIcESaIcEEE
+void _ZNSt11range_errorC1ERKNSt7__cxx1112basic_stringIcSt11char_traitsIcESaIcEEE(struct S_class_std_range_error *e, struct S_class_std_cxx11_basic_string *msg) { (void)e; (void)msg; }
+#endif
+#ifdef IR2C_NEED__ZNSt11range_errorC2EPKc
+void _ZNSt11range_errorC2EPKc(struct S_class_std_range_error *e, uint8_t *msg) { (void)e; (void)msg; }
+#endif
+#ifdef IR2C_NEED__ZNSt11range_errorC2ERKNSt7__cxx1112basic_stringIcSt11char_traitsIcESaIcEEE
+void _ZNSt11range_errorC2ERKNSt7__cxx1112basic_stringIcSt11char_traitsIcESaIcEEE(struct S_class_std_range_error *e, struct S_class_std_cxx11_basic_string *msg) { (void)e; (void)msg; }
+#endif
+#ifdef IR2C_NEED__ZNSt11range_errorD1Ev
+void _ZNSt11range_errorD1Ev(struct S_class_std_range_error *e) { (void)e; }
+#endif
+#ifdef IR2C_NEED__ZNSt11range_errorD2Ev
+void _ZNSt11range_errorD2Ev(struct S_class_std_range_error *e) { (void)e; }
+#endif
